@@ -141,7 +141,8 @@ def write_replay(prop, fn_result, vc):
                'spec': fn_result.get('replay_info', {}).get('spec'), 'let': fn_result.get('replay_info', {}).get('let'),
                'requires': fn_result.get('replay_info', {}).get('requires'),
                'harness': fn_result.get('replay_info', {}).get('harness'),
-               'module': fn_result.get('replay_info', {}).get('module'), 'repo': REPO}, open(p, 'w'), indent=1)
+               'module': fn_result.get('replay_info', {}).get('module'),
+               'native_patches': fn_result.get('replay_info', {}).get('native_patches'), 'repo': REPO}, open(p, 'w'), indent=1)
     return p
 
 
